@@ -532,7 +532,13 @@ func (s *session) planFor(raw string) (*plan, *PgError) {
 	return p, nil
 }
 
+// an empty quoted identifier: PostgreSQL refuses the statement while parsing it
+var zeroLenIdentRe = regexp.MustCompile(`(^|[ ,(.])""([ ,).]|$)`)
+
 func (s *session) unrecognised(n string) *PgError {
+	if zeroLenIdentRe.MatchString(n) {
+		return pgerr("42601", `zero-length delimited identifier at or near """"`)
+	}
 	s.db.mu.Lock()
 	s.db.unrec = append(s.db.unrec, n)
 	s.db.mu.Unlock()
